@@ -293,6 +293,10 @@ func (matrix *DenseReal64Matrix) AsVector() Vector {
   return matrix.AsDenseReal64Vector()
 }
 func (matrix *DenseReal64Matrix) storageLocation() uintptr {
+  if len(matrix.values) == 0 {
+    // no storage to point into: the matrix header identifies an empty matrix
+    return uintptr(unsafe.Pointer(matrix))
+  }
   return uintptr(unsafe.Pointer(&matrix.values[0]))
 }
 /* const interface
